@@ -3,6 +3,7 @@
    (depth ID "((v+v))")               -> ID Ok D | ID Err      (nesting and token limits of the source)
    (limit ID WHICH N)                 -> ID within | ID over
    (fieldref ID KINDS N)              -> ID Found I | ID NoSuchField | ID BadIndex | ID Crash
+   (alias ID RECURSIVE ((KEY TARGET) ...) NAME) -> ID Expanded NAME' | ID Cycle | ID NoEnd
    (query ID D K)                     -> ID within | ID over   (K plain terms inside D nested parentheses)
    (div ID (pool (SYMHEX PREC)...) EXPR) -> ID <value as in drv_C03> | ID E:<err>
    (period ID Q N START DATE)         -> ID Ok S | ID Err:<class>
@@ -108,6 +109,19 @@ let handle line =
     (match field_ref src_format_field_ref_guard (number_from (z_of_int 1) ks) (zatom n) with
      | Found (_, i) -> [id ^ " Found " ^ string_of_z i]
      | NoSuchField -> [id ^ " NoSuchField"] | BadIndex -> [id ^ " BadIndex"] | Crash -> [id ^ " Crash"])
+  | L [A "alias"; A id; recursive; L table; A name] ->
+    (* names are ':'-separated words; every distinct word is a segment number *)
+    let segs : (string, int) Hashtbl.t = Hashtbl.create 16 in
+    let back : (int, string) Hashtbl.t = Hashtbl.create 16 in
+    let seg w = (match Hashtbl.find_opt segs w with
+        | Some i -> i
+        | None -> let i = Hashtbl.length segs + 1 in Hashtbl.add segs w i; Hashtbl.add back i w; i) in
+    let nm s = List.map (fun w -> z_of_int (seg w)) (String.split_on_char ':' s) in
+    let tbl = List.map (function L [A k; A t] -> (nm k, nm t) | _ -> failwith "alias table") table in
+    (match expand src_alias_records_what_it_looks_up (batom recursive) tbl (nm name) with
+     | Expanded n -> [id ^ " Expanded " ^ String.concat ":" (List.map (fun z -> Hashtbl.find back (int_of_z z)) n)]
+     | Cycle -> [id ^ " Cycle"]
+     | NoEnd -> [id ^ " NoEnd"])
   | L [A "period"; A id; A q; n; start; date] ->
     (match period_start src_period_zero_guard (quantum_of q) (zatom n) (zatom start) (zatom date) with
      | Ok s -> [id ^ " Ok " ^ string_of_z s]
